@@ -55,8 +55,17 @@ Proof.
   apply filter_length_same_members; [apply preserved_nodup; exact W1|apply preserved_nodup; exact W2|apply preserved_members].
 Qed.
 
+Lemma has_heavy_ext n : has_heavy g1 n = has_heavy g2 n.
+Proof.
+  destruct (has_heavy g1 n) eqn:E1, (has_heavy g2 n) eqn:E2; try reflexivity; exfalso.
+  - apply has_heavy_spec in E1. destruct E1 as (m & I & H). rewrite is_Hn_ext in H. apply nbrs_members in I.
+    assert (has_heavy g2 n = true) by (apply has_heavy_spec; eauto). congruence.
+  - apply has_heavy_spec in E2. destruct E2 as (m & I & H). rewrite <- is_Hn_ext in H. apply nbrs_members in I.
+    assert (has_heavy g1 n = true) by (apply has_heavy_spec; eauto). congruence.
+Qed.
+
 Lemma ih_removed_ext pres n : ih_removed g1 pres n = ih_removed g2 pres n.
-Proof. unfold ih_removed. rewrite is_Hn_ext, mem_preserved_ext. reflexivity. Qed.
+Proof. unfold ih_removed. rewrite is_Hn_ext, mem_preserved_ext, has_heavy_ext. reflexivity. Qed.
 
 (** C01_implicit_hydrogen_ext *)
 Theorem implicit_hydrogen_ext pres : geq (implicit_hydrogen g1 pres) (implicit_hydrogen g2 pres).
@@ -65,7 +74,7 @@ Proof.
   destruct (implicit_hydrogen_spec g2 pres W2) as (L2 & A2 & _).
   split.
   - intros n. rewrite L1, L2, HL. destruct (label g2 n) as [a|]; [|reflexivity].
-    rewrite mem_preserved_ext, count_h_ext, count_pres_ext. reflexivity.
+    rewrite mem_preserved_ext, count_h_ext, count_pres_ext, has_heavy_ext. reflexivity.
   - intros u v. rewrite A1, A2, !ih_removed_ext, HA. reflexivity.
 Qed.
 End Ext.
